@@ -131,6 +131,8 @@ def check(ctx):
     _cross_site(rep, model)
     _preprocess_eval(rep, model)
     _normalisation(rep, model)
+    _processing_args(rep, model)
+    _reciprocal_space_axes(rep, model)
     _wiring(rep, model)
     _planner(rep, model)
     _guards(rep, model)
@@ -868,6 +870,161 @@ def _normalisation(rep, model):
                                                                   e.name),
                                   FOUR, ci.node.lineno)
     rep.floor('R3', 'transform class configurations', n, 12)
+
+
+def _reciprocal_space_axes(rep, model):
+    """R1c: `reciprocal_space` asks `reciprocal_grid` for the axes in the
+    order they were given - the per-axis `shift` (and the half-complex last
+    axis) are paired with the axes by position, here and in the transform
+    classes - for sorted, unsorted and negative axes."""
+    from ..symex import FieldV
+    from ..namodel import NA, NAHooks, NAInterp, DT
+    FTU_ = 'odl/trafos/util/ft_utils.py'
+    fn = model.ctx.func(FTU_, 'reciprocal_space')
+    if fn is None:
+        raise AnalysisError('anchor vanished: reciprocal_space')
+
+    class _Captured(Exception):
+        pass
+    n = 0
+    for axes, want in (((0, 1), (0, 1)), ((1, 0), (1, 0)), ((2, 0), (2, 0)),
+                       ((-1, 0), (2, 0)), ((1,), (1,)), (None, (0, 1, 2))):
+        n += 1
+        cons = 'reciprocal_space[axes=%r]' % (axes,)
+        got = {}
+
+        class RH(NAHooks):
+            def on_call(self, interp, f, args, kwargs, node):
+                if isinstance(f, Func) and f.name == 'reciprocal_grid':
+                    got.update(kwargs)
+                    got['grid'] = args[0] if args else kwargs.get('grid')
+                    raise _Captured()
+                if isinstance(f, Func) and f.name == 'conj_exponent':
+                    return Rat.const(2)
+                if isinstance(f, Func) and f.name in (
+                        'is_complex_floating_dtype',):
+                    return True
+                return NAHooks.on_call(self, interp, f, args, kwargs, node)
+
+            def on_getattr(self, interp, obj, name):
+                if isinstance(obj, Rec) and name in obj.attrs:
+                    return obj.attrs[name]
+                return NAHooks.on_getattr(self, interp, obj, name)
+        shift = (True, False, True)[:len(want)] if axes else (True, False,
+                                                              True)
+        sp = Rec('dspace', ndim=3, is_uniform_byaxis=(True, True, True),
+                 field=FieldV('C'), exponent=Rat.const(2),
+                 dtype=DT('complex128'), grid=Opaque('the grid'))
+        sp.isinstance_names = ('DiscretizedSpace',)
+        try:
+            I = NAInterp(model, {}, RH())
+            try:
+                I.call_func(Func(fn, I.env_of(FTU_), None), [sp],
+                            {'axes': axes, 'shift': shift,
+                             'dtype': DT('complex128')})
+            except _Captured:
+                pass
+            ax = got.get('axes')
+            ax = tuple(ax.items) if isinstance(ax, SArr) else (
+                tuple(ax.a.tolist()) if isinstance(ax, NA) else (
+                    tuple(ax) if isinstance(ax, (list, tuple)) else ax))
+            probs = []
+            if ax is None or tuple(int(to_rat(a).constant())
+                                   for a in ax) != want:
+                probs.append('reciprocal_grid is asked for axes %r, the '
+                             'order given is %r' % (ax, want))
+            if got.get('shift') is not shift:
+                probs.append('shift %r' % (got.get('shift'),))
+            if probs:
+                rep.violation('R1c', cons, '; '.join(probs), FTU_, fn.lineno)
+            else:
+                rep.holds('R1c', cons, 'axes in the given order, shift '
+                          'unchanged')
+        except Undecided as e:
+            rep.undecided('R1c', cons, str(e), FTU_, fn.lineno)
+        except PyRaise as e:
+            rep.violation('R1c', cons, 'raises %s' % e.name, FTU_, fn.lineno)
+    rep.floor('R1c', 'reciprocal_space axis orders', n, 6)
+
+
+def _processing_args(rep, model):
+    """R4d (sibling agreement, 4 of 4 sites on the reference tree): the
+    pre- and post-processing steps of the continuous transform and of its
+    inverse hand the operator's OWN sign, shift pattern and axes to
+    dft_preprocess_data / dft_postprocess_data (the inverse is constructed
+    with the opposite sign, C18-R4; each step then uses the phase of the
+    operator it belongs to).  The methods are interpreted with sentinel
+    attribute values; what reaches the kernels is compared by identity."""
+    from ..symex import FieldV
+    n = 0
+    for cname in ('FourierTransform', 'FourierTransformInverse'):
+        ci = model.get(cname)
+        if ci is None:
+            raise AnalysisError('anchor vanished: class %s' % cname)
+        for meth in ('_preprocess', '_postprocess'):
+            dc, fn = model.lookup(ci, meth)
+            if fn is None:
+                raise AnalysisError('anchor vanished: %s.%s' % (cname, meth))
+            cons = '%s.%s' % (cname, meth)
+            n += 1
+            seen = []
+
+            class PH(KH):
+                def on_call(self, interp, f, args, kwargs, node):
+                    if isinstance(f, Func) and f.name in (
+                            'dft_preprocess_data', 'dft_postprocess_data'):
+                        seen.append(dict(kwargs))
+                    return KH.on_call(self, interp, f, args, kwargs, node)
+            h = PH()
+            sign, shifts, axes = Opaque('own sign'), (True, False), (0, 1)
+
+            def once(assume):
+                del seen[:]
+                I = Interp(model, assume, h)
+                inst = Inst(ci)
+                sp = lambda nm: Rec('space', shape=(Rat.var('N'),),
+                                    field=FieldV('C'), grid=Opaque(nm))
+                inst.attrs.update({
+                    'sign': sign, 'halfcomplex': False, 'axes': axes,
+                    'impl': 'numpy', '_fftw_plan': None, '_tmp_r': None,
+                    '_tmp_f': None, 'shifts': shifts,
+                    'domain': sp('dgrid'), 'range': sp('rgrid')})
+                x = Vec(vs.sym('x'), h.X)
+                out = Vec(vs.sym('stale'), h.X)
+                I.call_func(Func(fn, I.env_of(dc.rel), dc), [x],
+                            {'out': out}, inst)
+                return list(seen)
+            try:
+                leaves = explore(once, limit=10)
+            except Undecided as e:
+                rep.undecided('R4d', cons, str(e), FOUR, fn.lineno)
+                continue
+            except PyRaise as e:
+                rep.violation('R4d', cons, 'raises %s' % e.name, FOUR,
+                              fn.lineno)
+                continue
+            probs = []
+            for a, calls in leaves:
+                if len(calls) != 1:
+                    probs.append('%d processing calls' % len(calls))
+                    continue
+                k = calls[0]
+                if k.get('sign') is not sign:
+                    probs.append('the phase is computed for sign=%r, not '
+                                 'for the sign of this operator' % (
+                                     k.get('sign'),))
+                if k.get('shift') is not shifts:
+                    probs.append('shift=%r is not the shift pattern of '
+                                 'this operator' % (k.get('shift'),))
+                if k.get('axes') is not axes:
+                    probs.append('axes=%r are not the axes of this '
+                                 'operator' % (k.get('axes'),))
+            if probs:
+                rep.violation('R4d', cons, '; '.join(sorted(set(probs))),
+                              FOUR, fn.lineno)
+            else:
+                rep.holds('R4d', cons, 'own sign, shift pattern and axes')
+    rep.floor('R4d', 'pre- / post-processing steps', n, 4)
 
 
 def _plan_agreement(rep, model, ci, cname, tag, sign, hc, field, inverse,
